@@ -92,6 +92,7 @@ def dec(v):
     if k == 'S': return str(v[1])
     if k == 'B': return bool(v[1])
     if k == 'N': return None
+    if k == 'P': return [x for kk, vv in v[1] for x in (kk, dec(vv))]      # a msg_params list given by the user
     if k == 'BIG': return 1e6
     if k == 'SC': return dec_scale(v[1])
     raise ValueError(v)
@@ -229,6 +230,40 @@ def run_pat(case):
     return out
 
 
+def run_replay(case):
+    """one event OBJECT played several times from a routine, its keys changed in between, copies of it played"""
+    main.reset()
+    ERRORS.records.clear()
+    srv = Server.default
+    srv.latency = float(Fraction(case.get('latency', '0/1')))
+    start = float(Fraction(case.get('start', '0/1')))
+    box = [event({k: dec(v) for k, v in case['keys'].items()})]
+
+    @routine
+    def r():
+        if start > 0:
+            yield start
+        for op in case['ops']:
+            if op[0] == 'play': box[0].play()
+            elif op[0] == 'set': box[0][op[1]] = dec(op[2])
+            elif op[0] == 'del': box[0].pop(op[1], None)
+            elif op[0] == 'copy': box[0] = box[0].copy()
+            elif op[0] == 'wait': yield float(Fraction(op[1]))
+
+    r.play()
+    score = main.process()
+    msgs = []
+    for row in score.list:
+        for m in row[1:]:
+            e = enc_msg(row[0], m)
+            if e is not None:
+                msgs.append(e)
+    out = {'msgs': msgs, 'errors': list(ERRORS.records)[:3], 'tables': kernel_points(case.get('points', {}))}
+    main.reset()
+    srv.latency = 0
+    return out
+
+
 def canon_event(e):
     out = []
     for k in sorted(e.keys()):
@@ -281,7 +316,7 @@ def main_():
     out = []
     for case in cases:
         try:
-            f = {'keys': run_keys, 'scale': run_scale, 'pat': run_pat, 'alias': run_alias}[case['kind']]
+            f = {'keys': run_keys, 'scale': run_scale, 'pat': run_pat, 'alias': run_alias, 'replay': run_replay}[case['kind']]
             out.append(f(case))
         except BaseException as ex:      # never let one case kill the run
             try:
